@@ -10,15 +10,22 @@ REQUIRED = [P + n for n in """compat_counterexample_K5 compat_decode_statement_f
 compat_not_transitive compat_missing_mandatory compat_missing_mandatory_example compat_decode_fields compat_decode_struct_partial
 compat_add_optional_field compat_drop_field compat_unknown_variant_swallowed compat_unknown_variant_keeps_siblings
 compat_unknown_variant_error compat_refl compatFields_refl compatVars_refl compatible_refl step_compatible_field
-step_compatible_variant""".split()]
+step_compatible_variant
+compat_ty compat_one compat_fields compat_vars proj_ty proj_one proj_fields proj_vars project_defined
+compat_decode_partial compat_decode compat_decode_lenient compat_decode_self compat_example_hyps
+compat_anon step_compatible_rename step_compatible_unit step_compatible_inField step_compatible compat_decode_step""".split()]
 REQUIRED += ["Minicbor.Derive." + n for n in """fieldsDec_compat fieldsDec_same runAtR_hit arrLoopN_cellsR mapLoopN_stmtsR resolveR
-stepH_piece stepH_gap dec_null_nil""".split()]
+stepH_piece stepH_gap dec_null_nil
+body_compat row_compat row_proj tyC_struct tyC_enum tyC_vec tyC_option_some tyC_transparent tyC_fieldBlob itemC_of_tyC
+spec_valid specFields_valid specVars_valid skip_encTy skip_frame skip_piece assemble_total fieldsFit_of_frame
+stepC_piece stepC_gap reader_val_eq projFields_find assemble_ok""".split()]
 PACKAGES = ["dgen"]
 prepare = base.prepare
 RULE = ("dcompat <writer type> <value> <reader type>: chains of type versions produced by sequences of the documented compatible edits (add an optional "
         "field at a new index / at a gap index, drop an optional field (its index is retired), add a variant to an enum that occurs as an Option field, "
         "turn a unit variant into a tuple / struct variant with optional fields; edits are applied at any nesting depth: struct bodies, variant bodies, "
-        "nested structs under Option / Vec) on random base structs (array and map encoding, regular and index_only enums, tagged fields, nil-aware codec, "
+        "nested structs under Option / Vec; new variants (regular and index_only) and new optional fields of map-encoded bodies also at the indices 255, 256, 65535, "
+        "65536 and 2^32-1 while the older version's indices stay small, with writer values that use every variant / set every new field) on random base structs (array and map encoding, regular and index_only enums, tagged fields, nil-aware codec, "
         "nested structs / enums / collections); every ordered pair of versions of a chain (both directions) x every generated value of the writer "
         "version.  Oracle: the documented projection computed by the Lean `project` (shared fields equal, reader-only optionals nil, writer-only fields "
         "ignored, unknown variant in an optional field None), position = length of the writer's encoding.  Recorded defects are recognised by the "
